@@ -224,7 +224,41 @@ func genC01(g *Gen, idx int) *Plan {
 	return p
 }
 
+// genC03LateBroker: the broker answers PINGREQs later than half a keep-alive while the client shows it is
+// alive with packets the gateway does not relay (REGISTER): the gateway pings the broker itself, several
+// of its pings are unanswered at a time, and their late PINGRESPs must all be swallowed — the client
+// gets exactly one PINGRESP per PINGREQ of its own.
+func genC03LateBroker(g *Gen) *Plan {
+	cfg := g.BaseCfg()
+	cfg.Sched = g.Sched("gateway/handler1.go")
+	p := &Plan{Family: "C03-gw-late-broker", Cfg: cfg}
+	sg := &sessGen{g: g, cid: "c1"}
+	ka := g.Range(2, 6)
+	p.Broker.AnswerDelayMs = ka * 1000 * g.Range(55, 140) / 100
+	sg.gap(5, 200)
+	sg.add(connectPkt("c1", uint16(ka), false, true))
+	sg.t += p.Broker.AnswerDelayMs
+	sg.gap(200, 500)
+	for i := 0; i < int(g.Range(3, 7)); i++ {
+		sg.gap(ka*1000*52/100, ka*1000*90/100)
+		if g.Bool(0.75) {
+			sg.add(refsn.Pkt{Type: refsn.REGISTER, MsgID: sg.nextMid(), TopicName: fmt.Sprintf("lb/%d", i)})
+		} else {
+			sg.add(refsn.Pkt{Type: refsn.PINGREQ})
+		}
+	}
+	sg.gap(p.Broker.AnswerDelayMs+200, p.Broker.AnswerDelayMs+900) // every late answer is in
+	sg.add(refsn.Pkt{Type: refsn.PINGREQ})
+	sg.gap(p.Broker.AnswerDelayMs+300, p.Broker.AnswerDelayMs+900)
+	p.Peers = []PeerPlan{{Name: "p1", Ops: sg.ops}}
+	p.Cfg.HorizonMs = sg.t + 2000
+	return p
+}
+
 func genC03(g *Gen, idx int) *Plan {
+	if idx%8 == 7 {
+		return genC03LateBroker(g)
+	}
 	cfg := g.BaseCfg()
 	cfg.Sched = g.Sched("gateway/handler1.go", "gateway/subscribe_transaction.go")
 	cfg.Predefined = g.PredefWithFilters([]string{"c1"})
